@@ -1,5 +1,5 @@
 From Coq Require Import Extraction ExtrOcamlBasic.
 From Shisui Require Import Base.Bytes Model.Handlers.
 Extraction Language OCaml.
-Extraction "c11_model.ml" handle_find_nodes collect_table_nodes truncate_nodes pick_perm nodes_reply_len talkresp_datagram relay_ok
+Extraction "c11_model.ml" handle_find_nodes handle_find_nodes_st collect_table_nodes truncate_nodes pick_perm nodes_reply_len talkresp_datagram relay_ok
   bucket_index from_requested_b entry_of_requested_b process_nodes filter_nodes accept_conditions_b logdist rec_eqb findnodes_max_payload.
